@@ -2,19 +2,36 @@
 
 Proof      : coq/Props/C19.v over coq/Model/FLock.v (FileLock in flock mode over an inode / open-file-
              description kernel model; the kernel's flock exclusivity is a hypothesis `flock_excl`) and
-             coq/Model/Lock.v (S3 conditional-write lock with leases, faults and a virtual clock).
-             Unbounded: any number of clients, any interleaving at primitive granularity.
-Tie        : translator/gen_lockconst.py (constants + golden pins of the modelled functions), and
-             correspondence: the SAME schedules run through the real FileLock / S3LockProvider under a
-             deterministic cooperative scheduler (real threads parked at every patched primitive; real
-             flock on a real file; in-memory S3 with conditional writes; virtual clock) and through the
-             Coq model (vm_compute); per-event observations and final state must be equal.
+             coq/Model/Lock.v (S3 conditional-write lock with leases, faults, a virtual clock and an
+             ENVIRONMENT that may change at any moment: the process's local time zone and the rendering of
+             LastModified in head replies -- aware at any utcoffset, or naive; Model/PyTime.v is the datetime /
+             time arithmetic involved).  Unbounded: any number of clients, any interleaving at primitive
+             granularity, any zone / rendering history.  C19_s3_environment_irrelevant: erasing the
+             environment events of ANY run changes nothing observable (simulation proof).
+Tie        : translator/gen_lockage.py regenerates the lease-age kernel of _try_takeover_expired (the
+             expression compared with the lease and the guard) into Gen/GenLockAge.v, which Lock.v's age
+             step is stated over; translator/gen_lockconst.py (constants + golden pins of the modelled
+             functions); and correspondence: the SAME schedules run through the real FileLock /
+             S3LockProvider under a deterministic cooperative scheduler (real threads parked at every
+             patched primitive; real flock on a real file; in-memory S3 with conditional writes; virtual
+             clock) and through the Coq model (vm_compute); per-event observations and final state must be
+             equal.  The S3 runs happen on ONE realistic time line: time.time() is epoch seconds,
+             datetime.now / utcnow are the same instant, mktime / localtime are the real ones, and "env"
+             events set os.environ["TZ"] + time.tzset() (east / west of UTC, half-hour zones, one-second
+             zones) and the datetime object replies carry (tzutc as boto3, datetime.timezone, foreign
+             offsets, naive) -- so an age computed by any route is judged against the same instants.
 Oracles    : implementation-only, on every state of every schedule: critical sections never overlap,
 (search)     is_held() true only while the kernel really holds the lock (outside flock probe), a dead
              holder frees the lock, TimeoutError neither early nor late; S3: at most one live holder,
-             takeover only after the lease lapsed, superseded holder's is_held() false / renew refused.
+             takeover only after the lease lapsed, superseded holder's is_held() false / renew refused --
+             in every environment above (the oracles read the fake store's own log of instants, never the
+             library's clocks).  Real heartbeat thread against the wall clock in a seed-drawn non-UTC zone.
              thorough: 8 processes x 2000 cycles on an unprotected counter, kill -9 of holders, real
              timeout measurement.
+Not judged : a NAIVE LastModified (no zone in the reply's date; boto3 never yields one for S3) makes
+             acquire() raise TypeError from the aware-minus-naive subtraction: modelled (SRaised), compared,
+             counted (s3_outcomes.raised) -- it fails closed, never a success, and the property text does
+             not speak about malformed replies.
 Finding    : release() = GET then UNCONDITIONAL DELETE can delete a successor's live lock
              (key s3-release-get-then-unconditional-delete-after-takeover); C19_s3_mutex_refuted is the
              model's witness, C19_s3_mutex_partial the theorem under `late_delete = false`.
@@ -32,7 +49,9 @@ from harness.lib.coqio import C, Some
 LEVEL = "proof"
 THEOREMS = [
     "C19_flock_mutex", "C19_flock_same_inode", "C19_flock_unlink_breaks_mutex", "C19_flock_death", "C19_flock_timeout", "C19_flock_ok_only_when_free",
-    "C19_s3_takeover_after_lease", "C19_s3_superseded", "C19_s3_is_held_sound", "C19_s3_timeout",
+    "C19_s3_takeover_after_lease", "C19_s3_age_any_zone_any_rendering", "C19_s3_age_test_in_any_environment",
+    "C19_s3_environment_irrelevant", "C19_s3_same_in_every_environment",
+    "C19_s3_local_field_age_is_zone_shifted", "C19_s3_local_field_age_premature", "C19_s3_superseded", "C19_s3_is_held_sound", "C19_s3_timeout",
     "C19_s3_ok_only_when_unowned", "C19_s3_mutex_partial", "C19_s3_mutex_refuted",
     "C19_s3_mutex_gap_hypothesis_insufficient", "C19_s3_mutex_conditional_delete",
 ]
@@ -43,16 +62,22 @@ MANIFEST_ENTRY = {
     "level_text": "Coq theorems over executable models of FileLock (flock mode) and of the S3 conditional-write lock, for "
                   "every interleaving of any number of clients at primitive granularity: local mutual exclusion, single "
                   "inode, release on death, timeout bounds; S3 takeover only after lease, superseded holders observe the "
-                  "loss, is_held soundness, timeout bound; models tied to the code by schedule-for-schedule differential "
-                  "execution of the real classes under a deterministic cooperative scheduler",
+                  "loss, is_held soundness, timeout bound -- for every history of the process time zone and of the "
+                  "rendering of LastModified (environment events in the model; C19_s3_environment_irrelevant: erasing them "
+                  "changes nothing observable), the lease-age kernel being regenerated from _try_takeover_expired over a "
+                  "datetime model (Gen/GenLockAge.v, Model/PyTime.v); models tied to the code by schedule-for-schedule "
+                  "differential execution of the real classes under a deterministic cooperative scheduler, the S3 runs "
+                  "in processes east / west of UTC (TZ + tzset) with aware (tzutc, foreign offsets) and naive LastModified",
     "level_note": "C19_s3_mutex is proved only as C19_s3_mutex_partial (hypothesis: no release's DELETE lands after the "
                   "releaser's own lease lapsed; C19_s3_mutex_gap_hypothesis_insufficient shows the weaker GET-to-DELETE-gap "
                   "hypothesis does not suffice); the full statement is refuted by C19_s3_mutex_refuted = known finding "
                   + KNOWN_KEY + " and holds for the variant with a conditional DELETE (C19_s3_mutex_conditional_delete). "
                   "Kernel flock exclusivity is the hypothesis flock_excl (exercised by real flock in every "
-                  "run and by the multi-process stress in thorough). Zero client/server clock skew assumed. O_EXCL fallback "
-                  "and S3PollingLockProvider out of scope.",
-    "technique": "Coq invariant proofs over interleaving models + deterministic-scheduler differential correspondence",
+                  "run and by the multi-process stress in thorough). Zero client/server clock skew assumed. Zones are fixed "
+                  "offsets (a DST switch = a zone change event); a naive LastModified makes acquire() raise TypeError "
+                  "(modelled, fails closed, not judged). O_EXCL fallback and S3PollingLockProvider out of scope.",
+    "technique": "Coq invariant / simulation proofs over interleaving models + kernel regenerated by translator + "
+                 "deterministic-scheduler differential correspondence across process time zones",
     "design_ref": "DESIGN.md section 5 C19",
 }
 
@@ -98,6 +123,9 @@ def s3_event_coq(ev: List[Any]) -> str:
         return f"STick {z(ev[1])}"
     if k == "die":
         return f"SDie {n_(ev[1])}"
+    if k == "env":      # seconds -> ms; the tzinfo flavour (ev[3]) is invisible to the model
+        r = "None" if ev[2] is None else f"(Some {z(int(ev[2]) * 1000)})"
+        return f"SEnv {z(int(ev[1]) * 1000)} {r}"
     raise ValueError(ev)
 
 
@@ -152,7 +180,7 @@ def s3_obs_py(pair: Tuple[Any, Any]) -> Tuple[Any, ...]:
         else:
             out = ("err", {"FTransient": "transient", "FPermanent": "permanent", "FLost": "lost", "FNone": "none"}[rep.args[0].name])
         return ("req", c, op, cond, out, r)
-    table = {"SONop": "nop", "SOCall": "call", "SOTime": "clock", "SOSleep": "sleep", "SODie": "die", "SOTick": "tick"}
+    table = {"SONop": "nop", "SOCall": "call", "SOTime": "clock", "SOSleep": "sleep", "SODie": "die", "SOTick": "tick", "SOEnv": "env"}
     return (table[nm],) + tuple(a) + (r,)
 
 
@@ -239,10 +267,34 @@ def flock_driver(ctx, scripts: Dict[Any, List[List[Any]]]) -> Driver:
 
 
 def s3_driver(ctx, scripts: Dict[Any, List[List[Any]]], lease_s: int, faults: Optional[Callable[[], str]] = None,
-              jitter: Optional[Callable[[], int]] = None) -> Driver:
+              jitter: Optional[Callable[[], int]] = None, pre: Optional[List[List[Any]]] = None) -> Driver:
+    """`pre`: events every schedule of this driver starts with (the environment the run begins in)."""
     from harness.lib.lockruns import S3Run
-    return Driver(S3Run(lease_s), scripts, "s3",
-                  lambda d, a: [faults() if faults else "none", jitter() if jitter else 300])
+    d = Driver(S3Run(lease_s), scripts, "s3",
+               lambda d, a: [faults() if faults else "none", jitter() if jitter else 300])
+    for ev in pre or []:
+        d.events.append(ev)
+        d.run.event(ev)
+    return d
+
+
+# Environments of the S3 lock: [zone_s, rep_s | None, flavour] = the process's local zone (seconds east of UTC, set
+# through TZ + tzset), the utcoffset at which head replies render LastModified (None: naive), the tzinfo class.
+# East and west of UTC by more and by less than both leases, half-hour zones, the date line; boto3's own rendering
+# (dateutil tzutc) and renderings in foreign offsets; naive dates.
+S3_ENVS: List[List[Any]] = [
+    [32400, 0, "dateutil"], [-18000, 0, "std"], [19800, 19800, "std"], [3600, -28800, "dateutil"],
+    [46800, 0, "std"], [-39600, 3600, "dateutil"], [0, 32400, "std"], [1, 0, "std"], [-1, 0, "dateutil"],
+    [0, None, "std"], [32400, None, "std"], [-25200, None, "std"],
+]
+
+
+def random_env(rng) -> List[Any]:
+    r = rng.random()
+    zone = rng.choice([0, 1, -1, 2, -3, 59, -61]) if r < 0.15 else rng.randrange(-24, 29) * 1800
+    r = rng.random()
+    rep_s: Optional[int] = 0 if r < 0.55 else (None if r < 0.67 else rng.randrange(-24, 29) * 1800)
+    return ["env", zone, rep_s, rng.choice(["std", "dateutil"])]
 
 
 def random_schedule(ctx, d: Driver, env_events: Callable[[Driver], Optional[List[Any]]], max_len: int, p_switch: float) -> None:
@@ -456,6 +508,15 @@ def check_flock(ctx) -> None:
 S3_FAULT_MIX = ["none"] * 12 + ["transient", "permanent", "lost"]
 
 
+def _pick_envs(rng, n: int, k: int) -> List[int]:
+    """quick tier: the first two environments (east / west of UTC by hours, boto3-like rendering) and the first
+    naive one always, the rest drawn by the seed."""
+    fixed = [0, 1, 9]
+    rest = [i for i in range(n) if i not in fixed]
+    rng.shuffle(rest)
+    return sorted(fixed + rest[:max(0, k - len(fixed))])
+
+
 def s3_cases(ctx) -> Dict[int, List[Driver]]:
     quick = ctx.tier == "quick"
     rng = ctx.rng
@@ -492,6 +553,24 @@ def s3_cases(ctx) -> Dict[int, List[Driver]]:
                  "E": [["tick", lease * 1000 + 1]]}
     by_lease[2] += explore(lambda: s3_driver(ctx, scripts_3, lease), 2, 900 if quick else 5000, free_actors=("E",))
     n4 = len(by_lease[2])
+    # (1c) the ENVIRONMENT as an input: the contended-lock schedules (holder live / lease lapsed / renewed, every
+    #      placement) again in processes whose local zone is not UTC and against replies that render LastModified
+    #      differently; then a zone / rendering CHANGE at every point of a run (tzset, DST switch, another endpoint)
+    envs = S3_ENVS if not quick else [S3_ENVS[i] for i in _pick_envs(rng, len(S3_ENVS), 7)]
+    scripts_c = {0: [["call", 0, "acquire", 1000], ["call", 0, "is_held"]],
+                 1: [["call", 1, "acquire", 1500], ["call", 1, "is_held"]],
+                 "E": [["tick", lease * 1000 + 1], ["renew", 0, "none"]]}
+    for env in envs:
+        pre = [["env"] + env]
+        by_lease[2] += explore(lambda pre=pre: s3_driver(ctx, scripts_c, lease, pre=pre), 1, 90 if quick else 300, free_actors=("E",))
+        by_lease[2] += explore(lambda pre=pre: s3_driver(ctx, scripts_e, lease, pre=pre), 1, 60 if quick else 200, free_actors=("E",))
+    n5 = len(by_lease[2])
+    for env in ([S3_ENVS[0], S3_ENVS[1], S3_ENVS[9]] if quick else S3_ENVS):
+        scripts_z = {0: [["call", 0, "acquire", 1000], ["call", 0, "is_held"]],
+                     1: [["call", 1, "acquire", 1500], ["call", 1, "is_held"]],
+                     "E": [["env"] + env, ["tick", lease * 1000 + 1]]}
+        by_lease[2] += explore(lambda scripts_z=scripts_z: s3_driver(ctx, scripts_z, lease), 1, 120 if quick else 300, free_actors=("E",))
+    n6 = len(by_lease[2])
     # (2) random: 3 clients, faults, renewals, deaths, clock jumps
     clients = [0, 1, 2]
     for _ in range(200 if quick else 2000):
@@ -504,7 +583,8 @@ def s3_cases(ctx) -> Dict[int, List[Driver]]:
                 for _j in range(rng.choice([0, 1, 2])):
                     scripts3[c] += [["call", c, "is_held"]]
                 scripts3[c] += [["call", c, "release"]]
-        d = s3_driver(ctx, scripts3, lease_s, faults=lambda: rng.choice(S3_FAULT_MIX), jitter=lambda: rng.choice([300, 450, 900]))
+        d = s3_driver(ctx, scripts3, lease_s, faults=lambda: rng.choice(S3_FAULT_MIX), jitter=lambda: rng.choice([300, 450, 900]),
+                      pre=[random_env(rng)] if rng.random() < 0.75 else None)
 
         def env(dd: Driver, L=L) -> Optional[List[Any]]:
             r = rng.random()
@@ -514,12 +594,16 @@ def s3_cases(ctx) -> Dict[int, List[Driver]]:
                 return ["renew", rng.choice(clients), rng.choice(S3_FAULT_MIX)]
             if r < 0.13:
                 return ["die", rng.choice(clients)]
+            if r < 0.14:
+                return random_env(rng)
             return None
         random_schedule(ctx, d, env, 250, 0.3)
         by_lease[lease_s].append(d)
     ctx.stats["s3_schedules"] = {"directed_fc19": 1, "two_contenders_le3_preemptions": n1, "lease_lapse_everywhere": n2 - n1,
                                  "renew_and_lapse_everywhere": n3 - n2, "three_clients_release_race": n4 - n3,
-                                 "random_three_with_faults": sum(len(v) for v in by_lease.values()) - n4 - 1,
+                                 "contended_in_zone_and_rendering": n5 - n4, "environment_change_everywhere": n6 - n5,
+                                 "environments": [e for e in envs],
+                                 "random_three_with_faults_and_environments": sum(len(v) for v in by_lease.values()) - n6 - 1,
                                  "impl_wall_s": round(time.time() - t0, 1)}
     return by_lease
 
@@ -529,8 +613,16 @@ def check_s3(ctx) -> None:
     agg: Dict[str, int] = {}
     nbad = 0
     known = 0
-    for lease_s, drivers in by_lease.items():
-        for d in drivers:
+    # judged in this order (the first failure of an oracle carries the replay): schedules whose replies render
+    # LastModified the way boto3 does before foreign offsets before naive dates; enumerated before random
+    def _order(t: Tuple[int, int, Driver]) -> Tuple[int, int, int]:
+        i, lease_s, d = t
+        reps = [e[2] for e in d.events if e[0] == "env"]
+        klass = 2 if any(r is None for r in reps) else (1 if any(r for r in reps) else 0)
+        return (klass, 0 if (lease_s == 2 or i == 0) else 1, i)      # lease 2 = the enumerated families; i == 0: F-C19
+    flat = sorted(((i, lease_s, d) for lease_s, drivers in by_lease.items() for i, d in enumerate(drivers)), key=_order)
+    for _i, lease_s, d in flat:
+        if True:     # (indentation kept)
             for k, v in d.run.stats.items():
                 agg[k] = max(agg.get(k, 0), v) if k == "max_live" else agg.get(k, 0) + v
             agg["events"] = agg.get("events", 0) + len(d.events)
@@ -772,10 +864,29 @@ class _RealTimeS3:
         return {}
 
 
-def heartbeat_real(ctx) -> None:
+HEARTBEAT_ZONES = [32400, -18000, 19800, 0, 46800, -39600]
+
+
+def heartbeat_real(ctx, zone_s: Optional[int] = None) -> int:
     """The scheduler runs replace the heartbeat THREAD by renew events; here the real thread runs against
     the wall clock: it must keep a live holder's lease fresh (a contender times out instead of taking over),
-    and must drop is_locked once its renewal is refused."""
+    and must drop is_locked once its renewal is refused.  No patches at all: real clocks, real threads, in a
+    process whose local zone is `zone_s` seconds east of UTC (drawn by the seed when not given)."""
+    from harness.lib.lockshims import set_process_zone
+    if zone_s is None:
+        zone_s = ctx.rng.choice(HEARTBEAT_ZONES)
+    saved = os.environ.get("TZ")
+    set_process_zone(zone_s)
+    try:
+        return _heartbeat_real(ctx, zone_s)
+    finally:
+        set_process_zone(None)
+        if saved is not None:
+            os.environ["TZ"] = saved
+            time.tzset()
+
+
+def _heartbeat_real(ctx, zone_s: int) -> int:
     import logging
     from datashard.lock_provider import S3LockProvider
     logging.disable(logging.CRITICAL)
@@ -783,14 +894,17 @@ def heartbeat_real(ctx) -> None:
     lease = 1.5          # renew every 0.5 s: one second of slack for a loaded machine
     a = S3LockProvider(s3, "b", "k", timeout=1.0, lease_seconds=lease)
     b = S3LockProvider(s3, "b", "k", timeout=2.5, lease_seconds=lease)
-    st: Dict[str, Any] = {}
+    st: Dict[str, Any] = {"zone_s": zone_s}
+    nviol = 0
     a.acquire()
     t0 = time.time()
     try:
         got = b.acquire()
         st["contender"] = "acquired"
         ctx.violation("s3-heartbeat-live-holder-taken-over", "a contender took over a lock whose holder's heartbeat thread was running "
-                      f"(lease {lease}s, renew every {lease / 3:.2f}s)", {"lock": "heartbeat", "puts": [list(p) for p in s3.puts]})
+                      f"(lease {lease}s, renew every {lease / 3:.2f}s; process zone {zone_s}s east of UTC)",
+                      {"lock": "heartbeat", "zone_s": zone_s, "puts": [list(p) for p in s3.puts]})
+        nviol += 1
         b.release()
     except TimeoutError:
         st["contender"] = f"TimeoutError after {time.time() - t0:.2f}s"
@@ -798,7 +912,8 @@ def heartbeat_real(ctx) -> None:
     st["renewals_by_holder"] = renewals
     if renewals < 3:
         ctx.violation("s3-heartbeat-not-renewing", f"{renewals} renewals in {time.time() - t0:.2f}s with lease {lease}s",
-                      {"lock": "heartbeat", "puts": [list(p) for p in s3.puts]})
+                      {"lock": "heartbeat", "zone_s": zone_s, "puts": [list(p) for p in s3.puts]})
+        nviol += 1
     # theft: somebody else's conditional write replaces the object; the next renewal must be refused
     with s3.mu:
         s3.n += 1
@@ -809,27 +924,37 @@ def heartbeat_real(ctx) -> None:
     st["holder_noticed_theft_after_s"] = round(time.time() - t1, 3)
     if a.is_locked:
         ctx.violation("s3-heartbeat-theft-unnoticed", "is_locked still True 4 s after the object was replaced (renew interval 0.5 s)",
-                      {"lock": "heartbeat"})
+                      {"lock": "heartbeat", "zone_s": zone_s})
+        nviol += 1
     if a.is_held():
-        ctx.violation("s3-superseded-holder-reports-held", "is_held() True after the object was replaced", {"lock": "heartbeat"})
+        ctx.violation("s3-superseded-holder-reports-held", "is_held() True after the object was replaced",
+                      {"lock": "heartbeat", "zone_s": zone_s})
+        nviol += 1
     a._stop_heartbeat_thread()
     ctx.count(3)
     ctx.stats["real_heartbeat"] = st
+    return nviol
 
 
 # ---------------------------------------------------------------------------------- driver
 def run(ctx) -> None:
-    ctx.rule = ("schedules = event lists over {call, step, renew, tick, die, fault}; every schedule is executed on the real class "
+    ctx.rule = ("schedules = event lists over {call, step, renew, tick, die, fault, env}; every schedule is executed on the real class "
                 "under the cooperative scheduler and on the Coq model; enumerated: all interleavings of 2 contenders with <= 3 "
                 "preemptions, environment events (death / clock jump past the lease / renewal / open failure) at every point, "
-                "random schedules of 3 clients with faults; a case is distinct by its full event list; oracles judge every "
-                "intermediate state")
+                "the contended-lock schedules again in each process time zone x LastModified rendering of S3_ENVS and with a "
+                "zone / rendering change at every point, random schedules of 3 clients with faults and random environments; "
+                "a case is distinct by its full event list; oracles judge every intermediate state")
     ctx.trusted_base += [
         "hypothesis flock_excl: the kernel grants LOCK_EX on an inode only if no other open file description holds it "
         "(not proved; real flock runs under every local-lock schedule and in the multi-process stress)",
         "S3 model assumptions: strongly consistent store, atomic conditional PUT, fresh ETag per write, zero clock skew between "
         "clients and LastModified; faults are botocore ClientErrors",
-        "translator/gen_lockconst.py (constants; golden pins of the 11 hand-modelled functions)",
+        "translator/gen_lockconst.py (constants; golden pins of the 11 hand-modelled functions); translator/gen_lockage.py "
+        "(the lease-age expression and guard of _try_takeover_expired -> Gen/GenLockAge.v over Model/PyTime.v; fail-closed on "
+        "any expression outside its datetime / epoch-seconds grammar)",
+        "Model/PyTime.v: CPython's datetime subtraction (aware-aware by instants, naive-naive by fields, mixed raises), "
+        ".timestamp() / mktime(timetuple()) reading naive fields as local time; fixed-offset zones; exercised by the "
+        "correspondence under real TZ settings",
         "harness: harness/lib/coop.py (scheduler), lockshims.py (patched primitives), fakes3_lock.py, lockruns.py, "
         "harness/props/c19.py; the heartbeat thread is replaced by explicit renew events calling _renew_once under the "
         "same guard as _heartbeat_loop",
@@ -840,7 +965,7 @@ def run(ctx) -> None:
         "one FileLock / provider instance is used by one thread at a time (is_held() is judged between calls)",
         "C19_s3_mutex_partial: no release()'s DELETE lands after the releaser's own lease lapsed (otherwise: known finding)",
     ]
-    ctx.proofs(THEOREMS, gen_files=["GenLockConst.v"])
+    ctx.proofs(THEOREMS, gen_files=["GenLockConst.v", "GenLockAge.v"])
     ctx.allow_axioms([])
     check_flock(ctx)
     check_s3(ctx)
@@ -859,6 +984,14 @@ def replay(ctx, payload) -> int:
             print("  ", ev, "->", ob)
         if hits:
             print("replay: STILL FAILS", json.dumps(hits[0], default=repr))
+            return 1
+        print("replay: passes now")
+        return 0
+    if kind == "heartbeat":
+        n = heartbeat_real(ctx, case.get("zone_s", 0))
+        print("  real heartbeat run in zone", case.get("zone_s", 0), "->", json.dumps(ctx.stats.get("real_heartbeat")))
+        if n:
+            print("replay: STILL FAILS")
             return 1
         print("replay: passes now")
         return 0
